@@ -29,6 +29,18 @@ class C05(Property):
                     argv = base[:posn] + [item] + base[posn:]
                     cases.append(Case("%si%d" % (gid, j), opts, argv,
                                       tags={"role": "insert", "group": gid, "item": item, "pos": posn}))
+                # a single-dash word containing a declared flag letter and an undeclared one (`-a!`) is a plain
+                # word for bpaf: it must behave exactly like any other plain word put at the same place
+                flags = [c for x in gen.walk(opts) if x["k"] == "flag" for c in x["n"]["short"]]
+                if flags:
+                    for j in range(2):
+                        posn = rng.randrange(0, limit + 1)
+                        c = rng.choice(flags).encode()
+                        item = rng.choice([b"-" + c + b"!", b"-" + c + c + b"%", b"-" + c + b"!" + c])
+                        cases.append(Case("%sw%d" % (gid, j), opts, base[:posn] + [item] + base[posn:],
+                                          tags={"role": "oddword", "group": gid, "item": item, "pos": posn, "twin": "%sv%d" % (gid, j)}))
+                        cases.append(Case("%sv%d" % (gid, j), opts, base[:posn] + [b"Zw9q"] + base[posn:],
+                                          tags={"role": "plainword", "group": gid, "pos": posn}))
                 # duplication of one item
                 if base:
                     i = rng.randrange(len(base))
@@ -62,6 +74,21 @@ class C05(Property):
                                            "an item nobody declares (%r at %d) was inserted into an accepted line and the run still "
                                            "yields a value: %s" % (c.tags["item"], c.tags["pos"], impl.get(c.id)[1]),
                                            related=[base]))
+            elif role == "oddword":
+                dist["oddword"] = dist.get("oddword", 0) + 1
+                twin = impl.get(c.tags["twin"])
+                mine = impl.get(c.id)
+                if twin is not None and mine is not None:
+                    ct, cm = compare.impl_class(twin), compare.impl_class(mine)
+                    if ct == "OK":
+                        nontrivial.append(c.line())
+                    want = twin[1].replace("(bytes %s)" % gen.hx(b"Zw9q"), "(bytes %s)" % gen.hx(c.tags["item"])) if ct == "OK" else None
+                    if ct != cm or (ct == "OK" and mine[1] != want):
+                        out.append(Finding("violation", c,
+                                           "the word %r (a declared flag letter followed by an undeclared one) is not treated as one "
+                                           "plain word: with a plain word at the same place the outcome is %s, with it %s "
+                                           "(an item delivered to two fields, or split)" % (c.tags["item"], " ".join(twin[:2])[:200],
+                                                                                          " ".join(mine[:2])[:200])))
             elif role == "dup":
                 dist["dup"] += 1
         stats = {"nontrivial_ids": nontrivial, "distribution": dist,
